@@ -226,6 +226,9 @@ func (it *interp) reduce(s *state) *state {
 		if msigOf(x) != msigOf(y) {
 			v -= 1000
 		}
+		if it.reduceTag != "" && x.tags[it.reduceTag] != y.tags[it.reduceTag] {
+			v -= 5000 // different caller paths: merge the callee's outcomes of one path first
+		}
 		scores[pair{x, y}] = v
 		return v
 	}
@@ -510,10 +513,11 @@ func (it *interp) merge(a, b *disjunct) *disjunct {
 	for _, p := range pend {
 		cands := []lin.Ineq{lin.LE(p.at, p.la), lin.GE(p.at, p.la), lin.LE(p.at, p.lb), lin.GE(p.at, p.lb)}
 		for side, l := range []*lin.Lin{p.la, p.lb} {
-			v, single := l.SingleVar()
+			v, off, single := l.VarPlusConst()
 			if !single {
 				continue
 			}
+			repl := p.at.AddConst(-off) // l = v + off, hence v = merged - off
 			src := a.facts
 			if side == 1 {
 				src = b.facts
@@ -521,7 +525,7 @@ func (it *interp) merge(a, b *disjunct) *disjunct {
 			n := 0
 			for _, q := range src {
 				if q.L.Has(v) && len(q.L.Vars()) <= 3 {
-					cands = append(cands, q.Subst(v, p.at))
+					cands = append(cands, q.Subst(v, repl))
 					n++
 					if n > 12 {
 						break
@@ -722,7 +726,10 @@ func memNilSig(d *disjunct) string {
 	// path only: merging the two paths would lose the correlation between the field and everything
 	// computed from it)
 	for mk, c := range d.mem {
-		if c == nil || c.val.isnil == nil || strings.HasSuffix(mk, "|zero") {
+		if c == nil || strings.HasSuffix(mk, "|zero") {
+			continue
+		}
+		if c.val.isnil == nil {
 			continue
 		}
 		if k, ok := c.val.isnil.ConstVal(); ok {
